@@ -1,10 +1,10 @@
 #!/bin/bash
 # usage: mkw.sh <name> <rule> <expect> <property> <desc>
-# Takes the uncommitted diff of the scratch worktree /tmp/wt-wit as the witness patch, checks it still
+# Takes the uncommitted diff of the scratch worktree $WT (default /tmp/wt-wit) as the witness patch, checks it still
 # builds, then resets the worktree.
 set -e
 export GOFLAGS=-mod=mod GOPROXY=off GOSUMDB=off GOTOOLCHAIN=local
-cd /tmp/wt-wit
+cd ${WT:-/tmp/wt-wit}
 if ! go build ./... ; then echo "DOES NOT BUILD"; git checkout -- . ; exit 1; fi
 if git diff --quiet; then echo "EMPTY DIFF - no witness written"; exit 1; fi
 git diff | /verif/bin/mkwitness.sh "$@"
